@@ -250,7 +250,7 @@ func ParseRego(code *y.Yaml, negated bool, variable Variable, path pathParser.Pr
 			return nil, err
 		}
 		regoCode = s
-		m, err := code.Get("message").String()
+		m, err := code.Get("message").Text()
 		if err == nil {
 			message = m
 		}
